@@ -51,7 +51,8 @@ Known findings (findings/C20.md; each classifier is narrow, every other deviatio
  * `ack_handshake_answers_status_in_of_in_request_with_wlength_0` - ACK handshake to an IN token for endpoint 0 while the
    current control request is device-to-host with wLength = 0;
  * `ack_handshake_answers_status_in_after_unfinished_control_transfer` - ACK handshake to an IN token for endpoint 0 after
-   the host left an earlier control transfer unfinished and no control transfer has completed since (C07's stale state).
+   the host left an earlier control transfer unfinished and no control transfer has completed since (C07's stale state;
+   marked `fixed` since C07's patch is in /repo: it suppresses nothing any more).
 
 Not judged: which handshake / which data is correct (C07-C17), latency below the bus time-out (C05), stability of
 ``tx_data`` while ``tx_ready`` is low (C03), the device's behaviour under an illegal host (overlapping packets,
